@@ -151,9 +151,18 @@ pub fn sched(ctx: &mut Ctx) {
                             }
                         }
                         "update" => {
-                            let r0 = run_pna(&sbx, &sbx.root, &["--quiet", "create", arch.as_str(), "--store", "t/f001.bin", "t/f002.bin", "t/f004.bin"], None, 600, &[("RAYON_NUM_THREADS", "1")]);
+                            // the archive holds a large file first and small ones after it; every second case names the files
+                            // one by one in archive order (walk order = archive order = the order in which replacements are handed to
+                            // the pool: the large one is still being compressed when the small ones are done), the others walk the tree
+                            let named = ["t/sub/f000.bin", "t/f001.bin", "t/f002.bin", "t/f004.bin", "t/f005.bin", "t/f007.bin"];
+                            let r0 = run_pna(&sbx, &sbx.root, &["--quiet", "create", arch.as_str(), "--store", named[0], named[1], named[2], named[3], named[4]], None, 600, &[("RAYON_NUM_THREADS", "1")]);
                             if !r0.ok() {
                                 r0
+                            } else if case % 2 == 0 {
+                                let mut a = vec!["--quiet", "experimental", "update", "--unstable", arch.as_str()];
+                                a.extend(codec.iter());
+                                a.extend(named.iter());
+                                run_pna(&sbx, &sbx.root, &a, None, 600, &env)
                             } else {
                                 let mut a = vec!["--quiet", "experimental", "update", "--unstable", arch.as_str(), "-r"];
                                 a.extend(codec.iter());
